@@ -9,6 +9,9 @@
      SetOverflow(o)   replaces the high digit, keeps the sequence number
      AddOne           c' = (c + 1) mod 2^24  (255 -> 0 carries into overflow, 2^24-1 wraps to 0)
      Get/SQN/Overflow reads: c' = c
+   Reads are operations of the machine like the others (they may happen or not, in any order,
+   between the writes): that they leave c unchanged is what makes a later read agree with an
+   earlier one.
    The *F operators give the next value as a function of the current one; the digest
    conformance (DESIGN 4.3) folds exactly these operators over all 2^24 states. *)
 EXTENDS Integers
@@ -26,6 +29,7 @@ SetF(o, s)        == o * 256 + s
 SetSQNF(x, s)     == OvfOf(x) * 256 + s
 SetOverflowF(x, o) == o * 256 + SqnOf(x)
 AddOneF(x)        == (x + 1) % M
+AddRunF(x, k)     == (x + k) % M          \* k increments in a row (checked against Iter in stage A)
 
 \* one operator for all operations: the value after operation `op` with arguments a, b from value x
 Apply(op, a, b, x) ==
@@ -33,6 +37,7 @@ Apply(op, a, b, x) ==
     [] op = "SetSQN"      -> SetSQNF(x, a)
     [] op = "SetOverflow" -> SetOverflowF(x, a)
     [] op = "AddOne"      -> AddOneF(x)
+    [] op = "AddRun"      -> AddRunF(x, a)
     [] OTHER              -> x          \* Get, SQN, Overflow
 
 Set(o, s)      == c' = SetF(o, s)
